@@ -24,6 +24,20 @@ def parseG (j : Json) : G :=
     succs := fun u => if u < n then jNats (jIdx (row u) 4) else [],
     owner := fun u => if u < n then jOptNat (jIdx (row u) 5) else none }
 
+/-- array-backed copy of a state (same values on every uid `< n`): lookups no longer walk the chain of
+    closures that the functional updates of the model build up.  Representation only. -/
+def freezeG (g : G) : G :=
+  let n := g.n
+  let r := Array.range n
+  let tid := r.map g.tid
+  let parent := r.map g.parent
+  let children := r.map g.children
+  let preds := r.map g.preds
+  let succs := r.map g.succs
+  let owner := r.map g.owner
+  { n := n, tid := fun u => tid.getD u 0, parent := fun u => parent.getD u none, children := fun u => children.getD u [],
+    preds := fun u => preds.getD u [], succs := fun u => succs.getD u [], owner := fun u => owner.getD u none }
+
 def optNatOut : Option Nat → Json
   | none => .null
   | some n => toJson n
@@ -67,6 +81,22 @@ def boolsOut (l : List (String × Bool)) : Json := mkObj (l.map (fun p => (p.1, 
 def invClauses (s : G) : List (String × Bool) :=
   wfClauses s ++ [("ownerOk", ownerOkB s), ("uniqueIds", uniqueIdsB s)]
 
+/-- C11 "can be attached to another WBS": a parentless, owner-less ordinary task whose subtree ids do not occur
+    in WBS `w` must be accepted by `w.roots.append(t)` -/
+def mustAcceptB (pre : G) (op : Op) : Bool :=
+  match op with
+  | .chAppend w t =>
+    if pre.hidden w && !pre.hidden t && pre.owner t == none && pre.parent t == none then
+      match subtreeF pre.children pre.fuel t, descF pre.children pre.fuel w with
+      | some sub, some mem => sub.all (fun x => mem.all (fun y => pre.tid x != pre.tid y))
+      | _, _ => false
+    else false
+  | _ => false
+
+def isReorder : Op → Bool
+  | .chReorder _ _ => true
+  | _ => false
+
 /-- one step: {"fam":"graph","pre":state,"op":[…],"out":"ok"|"runtime"|"crash:K","post":state,
                "wbs":[{"w":uid,"tasks":[uids],"look":[[id, uid|"runtime"|…]…]}…]} -/
 def runGraphStep (j : Json) : Json :=
@@ -93,7 +123,10 @@ def runGraphStep (j : Json) : Json :=
          ("model", mkObj [("out", .str (match merr with | none => "ok" | some e => e.name)), ("post", gOut mpost)]),
          ("preInv", boolsOut (invClauses pre)),
          ("mon", boolsOut (invClauses post ++
-            [("unchangedOnRaise", implErr.isNone || eqB pre post), ("tasksLookup", wbsMon)]))]
+            [("unchangedOnRaise", implErr.isNone || eqB pre post), ("tasksLookup", wbsMon),
+             ("rejectIsRuntime", isReorder op || (match implErr with | some (.crash _) => false | _ => true)),
+             ("reattach", !(mustAcceptB pre op) || implErr.isNone)])),
+         ("mustAccept", .bool (mustAcceptB pre op))]
 
 def runGraph (j : Json) : Json :=
   mkObj [("id", fld j "id"), ("steps", .arr ((jArr (fld j "steps")).map runGraphStep).toArray)]
